@@ -1,0 +1,26 @@
+//go:build verif
+
+// Package verifhook provides named scheduling points for the external
+// verification harness. With the build tag "verif" a controller installed
+// by the harness is consulted at every point (and may block the caller
+// until the harness releases it).
+package verifhook
+
+import "sync/atomic"
+
+var controller atomic.Value // of func(name, key string)
+
+// SetController installs (or, with nil, removes) the function called at every point.
+func SetController(f func(name, key string)) {
+	if f == nil {
+		f = func(string, string) {}
+	}
+	controller.Store(f)
+}
+
+// Point marks a scheduling point.
+func Point(name, key string) {
+	if f, ok := controller.Load().(func(name, key string)); ok {
+		f(name, key)
+	}
+}
